@@ -36,11 +36,27 @@ using namespace nmtools::literals;
 namespace utils = nmtools::utils;
 namespace view = nmtools::view;
 
+// isclose operands: wire integers are quarters; the codes 9000001.. stand for non-finite / extreme values
+//   9000001 NaN  2 +inf  3 -inf  4 -0.0  5 denormal (DBL_TRUE_MIN)  6 DBL_MAX  7 -DBL_MAX  8 FLT_MAX  9 -FLT_MAX
+#include <limits>
+#include <cfloat>
+static double fp_value(ll v) {
+    switch (v) {
+        case 9000001: return std::numeric_limits<double>::quiet_NaN();
+        case 9000002: return std::numeric_limits<double>::infinity();
+        case 9000003: return -std::numeric_limits<double>::infinity();
+        case 9000004: return -0.0;
+        case 9000005: return std::numeric_limits<double>::denorm_min();
+        case 9000006: return DBL_MAX;  case 9000007: return -DBL_MAX;
+        case 9000008: return (double)FLT_MAX; case 9000009: return -(double)FLT_MAX;
+    }
+    return (double)v / 4.0;
+}
 template <bool CL, bool AP = false> struct Mode {
     using elem_t = std::conditional_t<CL, double, ll>;
     using int_t = std::conditional_t<CL, int, int>;
     double eps = 0;
-    static elem_t conv(ll v) { if constexpr (CL) return (double)v / 4.0; else return (elem_t)v; }
+    static elem_t conv(ll v) { if constexpr (CL) return fp_value(v); else return (elem_t)v; }
     template <typename A, typename B> std::string cmp(const A& a, const B& b) const {
         if constexpr (AP && CL) return utils::apply_isclose(a, b) ? "ok 1" : "ok 0";
         else if constexpr (AP) return utils::apply_isequal(a, b) ? "ok 1" : "ok 0";
@@ -58,7 +74,7 @@ template <typename T, typename A = dyn_t<T>> static A mk(const std::vector<ll>& 
     A a; std::vector<size_t> shp(shape.begin(), shape.end()); a.resize(shp);
     std::vector<size_t> idx(shp.size(), 0); size_t n = 1; for (auto e : shp) n *= e;
     for (size_t c = 0; c < n; c++) {
-        a(idx) = cl ? (T)((double)data[c] / 4.0) : (T)data[c];
+        a(idx) = cl ? (T)fp_value(data[c]) : (T)data[c];
         for (int d = (int)shp.size() - 1; d >= 0; d--) { if (++idx[d] < shp[d]) break; idx[d] = 0; }
     }
     return a;
@@ -68,6 +84,7 @@ template <typename T, typename A = dyn_t<T>> static A mk(const Arg& a, bool cl) 
 template <typename T, typename F>
 static std::string with_arr(const std::string& kind, const Arg& a, bool cl, F&& f) {
     if (kind == "dyn") return f(mk<T>(a, cl));
+    if (kind == "dynf") { if (cl) return f(mk<float, dyn_t<float>>(a, cl)); return "unsupported"; }   // float elements (isclose only)
     if (kind == "col") return f(mk<T, dyn_col_t<T>>(a, cl));      // column-major buffer, same logical content
     if (kind == "cref") { auto base = mk<T, dyn_col_t<T>>(a, cl); return f(view::ref(base)); }
     if (kind == "ref") { auto base = mk<T>(a, cl); return f(view::ref(base)); }
@@ -78,7 +95,7 @@ static std::string with_arr(const std::string& kind, const Arg& a, bool cl, F&& 
     }
 #ifndef VD_LIGHT
     if (kind == "fix") {
-        auto v = [&](size_t i) { return cl ? (T)((double)a.list[i] / 4.0) : (T)a.list[i]; };
+        auto v = [&](size_t i) { return cl ? (T)fp_value(a.list[i]) : (T)a.list[i]; };
         if (a.shape == std::vector<ll>{2, 3}) { std::array<std::array<T, 3>, 2> x{}; for (size_t i = 0; i < 6; i++) x[i / 3][i % 3] = v(i); return f(x); }
         if (a.shape == std::vector<ll>{3, 2}) { std::array<std::array<T, 2>, 3> x{}; for (size_t i = 0; i < 6; i++) x[i / 2][i % 2] = v(i); return f(x); }
         if (a.shape == std::vector<ll>{2, 2}) { std::array<std::array<T, 2>, 2> x{}; for (size_t i = 0; i < 4; i++) x[i / 2][i % 2] = v(i); return f(x); }
